@@ -939,6 +939,10 @@ def isnan(x):
 def smin(*a, **kw):
     if len(a) == 1:
         a = list(a[0])
+        if not a:
+            if "default" in kw:
+                return kw["default"]
+            raise ValueError("min() iterable argument is empty")
     r = a[0]
     for x in a[1:]:
         r = _pick(x, r, "lt")
@@ -948,6 +952,10 @@ def smin(*a, **kw):
 def smax(*a, **kw):
     if len(a) == 1:
         a = list(a[0])
+        if not a:
+            if "default" in kw:
+                return kw["default"]
+            raise ValueError("max() iterable argument is empty")
     r = a[0]
     for x in a[1:]:
         r = _pick(x, r, "gt")
